@@ -180,12 +180,19 @@ class Operation:
         return self.parent.ops[i + 1] if i + 1 < len(self.parent.ops) else None
 
     def walk(self, reverse=False, region_first=False):
-        out = [self]
+        inner = []
         for r in self.regions:
             for b in r.blocks:
                 for o in b.ops:
-                    out.extend(o.walk())
-        return out
+                    inner.extend(o.walk(reverse, region_first))
+        return inner + [self] if region_first else [self] + inner
+
+    def detach(self):
+        """recorded, not performed (the rewriter stub is a recorder)"""
+        self.detached = True
+
+    def erase(self, safe_erase=True):
+        self.erased = True
 
     def detach_region(self, region):
         k = 0
@@ -273,10 +280,10 @@ class Block:
         o = self.parent_op()
         return o.parent if o is not None else None
 
-    def walk(self, reverse=False):
+    def walk(self, reverse=False, region_first=False):
         out = []
         for o in self.ops:
-            out.extend(o.walk())
+            out.extend(o.walk(reverse, region_first))
         return out
 
 
@@ -311,10 +318,10 @@ class Region:
         r.cloned_from = self
         return r
 
-    def walk(self, reverse=False):
+    def walk(self, reverse=False, region_first=False):
         out = []
         for b in self.blocks:
-            out.extend(b.walk())
+            out.extend(b.walk(reverse, region_first))
         return out
 
 
